@@ -366,7 +366,9 @@ type ShardSpec struct {
 	Race  bool   `json:"race,omitempty"` // run with the -race build of the engine
 	// Engine is filled in by the driver: the engine package this shard belongs to.
 	Engine string `json:"engine,omitempty"`
-	Fuzz   bool   `json:"fuzz,omitempty"` // a native `go test -fuzz` campaign (driver runs `go test`)
+	// Wrap is put in front of the test binary (e.g. taskset -c 0 to make the process see one CPU).
+	Wrap []string `json:"wrap,omitempty"`
+	Fuzz bool     `json:"fuzz,omitempty"` // a native `go test -fuzz` campaign (driver runs `go test`)
 }
 
 // Plan is what an engine answers when asked how to check a property in a tier.
